@@ -215,6 +215,10 @@ def handle (op : String) (fs : List (String × String)) : String :=
       let c := if getField fs "api" == some "CFFPDF" || getField fs "api" == some "CFF" then "_" else "="
       "".intercalate (ks.map fun k => c ++ (if k < total then "!-" else ".T"))
     | none => "bad-case"
+  else if op == "faults.genpanic" then
+    -- the generator could not build a corpus item on this tree (the library panicked or refused
+    -- its own output): expected is that it can
+    "built"
   else if op == "faults.region" then
     -- diagnostic (beyond the property's quantifier): an unreadable region that is touched makes
     -- the read fail
